@@ -1,11 +1,15 @@
 (* C06 — Validator lifecycle: legal transitions only, and unstaking pays out on time. Statements only.
    Proved: the order and injectivity of the power-index keys, that a jailed / not-staked validator
    is never indexed, that jailing removes the entry, and that only queue slots due at the block
-   time are processed (never earlier). The history-level exactness of index and queue is checked on
-   the implementation after every op (oracle c06) and by correspondence; its Coq proof is partial. *)
+   time are processed (never earlier), AND over all histories: the power index is sound in every reachable
+   state (App/IndexProofs.v), every unstaking validator is queued under its completion time in every
+   reachable state, and EndBlock leaves no unstaking validator whose completion time has been reached
+   (App/QueueProofs.v). Not proved in Coq (oracle c06 on the implementation + correspondence): the
+   converse directions (every staked unjailed validator IS indexed; every queued address IS unstaking),
+   which need injectivity of the keys under range premises. *)
 From Coq Require Import List ZArith NArith Bool.
 From PM Require Import Base.Bytes Store.KV Store.MergeProofs Num.IntModel Num.DecModel Num.DecProofs
-  App.Model App.BankProofs App.TxProofs App.KeyProofs App.PosProofs App.Examples.
+  App.Model App.BankProofs App.TxProofs App.KeyProofs App.PosProofs App.IndexProofs App.QueueProofs App.Examples App.Invariants.
 Import ListNotations.
 Local Open Scope Z_scope.
 
@@ -25,7 +29,31 @@ Theorem C06_maturity_never_early s k l : 0 <= btime s < 256 ^ 8 ->
 Proof. exact (mature_slots_are_due s k l). Qed.
 Theorem C06_payout_is_whole_stake s a v s' : bank_ok s -> finish_unstaking s a v = Some s' -> bank_ok s'.
 Proof. exact (finish_unstaking_pres s a v s'). Qed.
+(* ---- every reachable state of every history ---- *)
+Theorem C06_index_sound_all_histories ops s s' : idx_sound s -> run ops s = Some s' -> idx_sound s'.
+Proof. exact (run_is ops s s'). Qed.
+Theorem C06_not_staked_never_indexed_all_histories ops s s' a v : idx_sound s -> run ops s = Some s' ->
+  get_val s' a = Some v -> v_status v <> 2%N -> forall k, aget (powidx s') k <> Some a.
+Proof. intros H E. exact (not_staked_never_indexed s' a v (run_is ops s s' H E)). Qed.
+Theorem C06_unstaking_always_queued_all_histories ops s s' b v : queue_ok s -> run ops s = Some s' ->
+  get_val s' b = Some v -> v_status v = 1%N ->
+  exists l, aget (unstq s') (time_key (v_unstime v)) = Some l /\ In b l.
+Proof.
+  intros H E Eb St. destruct (run_q ops s s' H E) as (_ & _ & Hq). apply (Hq b v); auto. discriminate.
+Qed.
+(* released at the first block at or after the completion time: after EndBlock nobody whose time has come is left *)
+Theorem C06_released_on_time s s' ups b v : queue_ok s -> end_block s = Some (s', ups) ->
+  0 <= btime s < 256 ^ 8 -> get_val s' b = Some v -> v_status v = 1%N -> 0 <= v_unstime v < 256 ^ 8 ->
+  btime s < v_unstime v.
+Proof. exact (released_on_time s s' ups b v). Qed.
+Theorem C06_genesis_queue_ok s0 gvals dao s ups : queue_ok s0 -> init_chain s0 gvals dao = Some (s, ups) -> queue_ok s.
+Proof. exact (init_chain_q s0 gvals dao s ups). Qed.
+Example C06_ex_premises : exists s ups, ex_genesis = Some (s, ups) /\ bank_ok s /\ idx_sound s /\ PoolProofs.pool_ok ex_ma s /\ queue_ok s.
+Proof. exact ex_genesis_all_ok. Qed.
 Example C06_ex : exists s, ex_final = Some s /\ aget (accts s) A2 = Some 3000000 /\ aget (vals s) A2 = None.
 Proof. destruct ex_final_some as (s & E & _ & B & V & _). eauto. Qed.
 Print Assumptions C06_jail_removes_index_entry.
 Print Assumptions C06_maturity_never_early.
+Print Assumptions C06_index_sound_all_histories.
+Print Assumptions C06_unstaking_always_queued_all_histories.
+Print Assumptions C06_released_on_time.
